@@ -50,6 +50,7 @@ pub fn corpus_plans() -> Vec<Plan> {
                 ("Ns".into(), v(NumberSequence { keypoints: vec![NumberSequenceKeypoint::new(0.0, 1.0, 0.0), NumberSequenceKeypoint::new(1.0, 0.0, 0.25)] })),
                 ("Fo".into(), v(Font::regular("rbxasset://fonts/families/Arial.json"))),
                 ("L".into(), v(1i64 << 40)),
+                ("Uq".into(), v(rbx_dom_weak::types::UniqueId::new(3, 2, -1))),
                 ("Pp".into(), v(PhysicalProperties::Custom(CustomPhysicalProperties { density: 0.7, friction: 0.3, elasticity: 0.5, friction_weight: 1.0, elasticity_weight: 2.0 }))),
             ],
         }],
@@ -450,7 +451,7 @@ fn xml_mutations(text: &[u8]) -> Vec<Vec<u8>> {
         // text node up to the next tag
         if let Some(&(ns, _)) = tags.get(k + 1) {
             if ns > e && text[e..ns].iter().any(|c| !c.is_ascii_whitespace()) {
-                for repl in [&b""[..], b"x", b"1e999", b"-1", b"NAN", b"99999999999999999999"] {
+                for repl in [&b""[..], b"x", b"1e999", b"-1", b"NAN", b"99999999999999999999", "\u{20ac}\u{20ac}\u{20ac}\u{20ac}\u{20ac}\u{20ac}\u{20ac}\u{20ac}\u{20ac}\u{20ac}aa".as_bytes(), b"zzzzzzzzzzzzzzzzzzzzzzzzzzzzzzzz", b"+000000000000001+0000002+0000003", "\u{e9}".as_bytes(), b" ", b"true"] {
                     out.push(splice(e, ns, repl));
                 }
             }
